@@ -95,16 +95,23 @@ where
     T: Number,
     usize: Cast<T>,
 {
+    // `end` does not lie in the direction of `step`: the range is empty (checked before
+    // subtracting, which would underflow for unsigned element types)
+    let forward = step > T::zero();
+    if (forward && b <= a) || (!forward && b >= a) {
+        return Linspace {
+            start: a,
+            step,
+            len: 0,
+            index: 0,
+        };
+    }
     let len = b - a;
     let mut steps = (len / step).ceil();
     // integer division truncates toward zero: a partial last step still holds an element
     let rest = len - steps * step;
     if rest != T::zero() && ((rest > T::zero()) == (step > T::zero())) {
         steps += T::one();
-    }
-    // `end` does not lie in the direction of `step`: the range is empty
-    if steps < T::zero() {
-        steps = T::zero();
     }
     Linspace {
         start: a,
